@@ -43,6 +43,7 @@ func strArg(v Val) string {
 
 func registerIntrinsics(ex *Executor) {
 	I := ex.Intr
+	registerExtlib(ex)
 	// ---- harness ----
 	nd := func(kind string, sort smt.Sort) Intrinsic {
 		return func(ex *Executor, st *State, cc *CallCtx, args []Val) (Val, ctl) {
